@@ -16,7 +16,12 @@
 #ifndef SEED
 #define SEED 0u
 #endif
+#ifdef XV_ZLAYOUT
+// strlen-sized (numpy) layout: no stored size; stale characters stay behind the terminator after a shrink
+using FS = xtl::xbasic_fixed_string<char, CAP, xtl::buffer, xtl::string_policy::throwing_error>;
+#else
 using FS = xtl::xbasic_fixed_string<char, CAP, xtl::buffer | xtl::store_size, xtl::string_policy::throwing_error>;
+#endif
 static unsigned rs = SEED * 2654435761u + 11u;
 static unsigned rnd() { rs = rs * 1664525u + 1013904223u; return rs >> 8; }
 static std::string hist;
